@@ -329,6 +329,25 @@ VARIANTS["C07"] = [
     R("copy-views-inlined", DH, "        nn = self.nodes\n        cp.add_nodes_from((n, deepcopy(attr)) for n, attr in nn.items())", "        cp.add_nodes_from((n, deepcopy(attr)) for n, attr in self.nodes.items())"),
 ]
 
+# --------------------------------------------------------------------------- C05
+VARIANTS["C05"] = [
+    M("remove_node_from_edge-keyerror", HG, "        if edge not in self._edge:\n            raise XGIError(f\"Edge {edge} not in the hypergraph\")", "        if edge not in self._edge:\n            raise KeyError(f\"Edge {edge} not in the hypergraph\")", "E-TYPE", "remove_node_from_edge"),
+    M("sc-none-valueerror", SC, "                    raise XGIError(\"None cannot be a node\")\n                self._node[node] = set()", "                    raise ValueError(\"None cannot be a node\")\n                self._node[node] = set()", "E-TYPE", "_add_simplex"),
+    M("remove_simplex_id-no-conversion", SC, "        except KeyError as e:\n            raise XGIError(f\"Simplex {idx} is not in the Simplicialcomplex\") from e", "        except KeyError as e:\n            raise RuntimeError(f\"Simplex {idx} is not in the Simplicialcomplex\") from e", "E-TYPE", "remove_simplex_id"),
+    M("remove_node_from_edge-no-membership-guard", HG, "        elif node not in self._edge[edge]:\n            raise XGIError(f\"Edge {edge} does not contain node {node}\")\n        else:\n            self._edge[edge].remove(node)", "        else:\n            self._edge[edge].remove(node)", "E-TYPE", "remove_node_from_edge"),
+    M("double_edge_swap-no-try", HG, "        except KeyError as e:\n\n            raise IDNotFound(\n                \"One of the nodes specified doesn't belong to the specified edge.\"\n            ) from e", "        except ZeroDivisionError as e:\n\n            raise IDNotFound(\n                \"One of the nodes specified doesn't belong to the specified edge.\"\n            ) from e", "E-TYPE", "double_edge_swap"),
+    M("node-table-plain-dict", HG, "    _node_dict_factory = IDDict\n", "    _node_dict_factory = dict\n", "E-TYPE"),
+    M("iddict-getitem-no-conversion", UT, "        try:\n            return dict.__getitem__(self, item)\n        except KeyError as e:\n            raise IDNotFound(f\"ID {item} not found\") from e", "        return dict.__getitem__(self, item)", "E-TYPE", "__getitem__"),
+    M("swap-touches-edge-attr", HG, "        self._edge[e_id1] = temp_members1\n        self._edge[e_id2] = temp_members2\n", "        self._edge[e_id1] = temp_members1\n        self._edge[e_id2] = temp_members2\n        self._edge_attr[e_id1], self._edge_attr[e_id2] = self._edge_attr[e_id2], self._edge_attr[e_id1]\n", "E-FOOT", "double_edge_swap"),
+    M("shuffle-consumes-counter", HG, "        # update hypergraph\n        self._edge[e_id1] = e1_new", "        # update hypergraph\n        next(self._edge_uid)\n        self._edge[e_id1] = e1_new", "E-FOOT", "random_edge_shuffle"),
+    M("sc-alias-drops-idx", SC, "        return self.add_simplex(edge, idx=idx, **attr)", "        return self.add_simplex(edge, idx=None, **attr)", "E-ALIAS", "add_edge"),
+    M("sc-alias-drops-weight", SC, "            ebunch_to_add, max_order=max_order, weight=weight, **attr\n        )\n\n    def remove_edge", "            ebunch_to_add, max_order=max_order, **attr\n        )\n\n    def remove_edge", "E-ALIAS", "add_weighted_edges_from"),
+    M("remove_nodes_from-drops-strong", HG, "            self.remove_node(n, strong=strong, remove_empty=remove_empty)", "            self.remove_node(n, remove_empty=remove_empty)", "E-ALIAS", "remove_nodes_from"),
+    M("add_nodes_from-shared-kwargs", HG, "                newdict = attr.copy()\n                newdict.update(ndict)\n            if newnode:\n                self._node[n] = set()", "                newdict = attr\n                newdict.update(ndict)\n            if newnode:\n                self._node[n] = set()", "E-LOOPALIAS", "Hypergraph.add_nodes_from"),
+    R("remove_node_from_edge-guards-reordered", HG, "        if edge not in self._edge:\n            raise XGIError(f\"Edge {edge} not in the hypergraph\")\n        elif node not in self._node:\n            raise XGIError(f\"Node {node} not in the hypergraph\")", "        if node not in self._node:\n            raise XGIError(f\"Node {node} not in the hypergraph\")\n        elif edge not in self._edge:\n            raise XGIError(f\"Edge {edge} not in the hypergraph\")"),
+    R("add_nodes_from-dict-merge-form", HG, "                newdict = attr.copy()\n                newdict.update(ndict)\n            if newnode:\n                self._node[n] = set()", "                newdict = {**attr, **ndict}\n            if newnode:\n                self._node[n] = set()"),
+]
+
 
 def variants_for(prop):
     return list(VARIANTS.get(prop, []))
